@@ -46,6 +46,8 @@ def configs(tier, seed):
         out.append(('nonuniform/1d/n=%d' % n, dict(kind='nonuniform', shape=[n])))
         out.append(('nonuniform-index/1d/n=%d' % n, dict(kind='nonuniform-index', shape=[n],
                                                          _settings={'max_paths': 3000})))
+    out.append(('nonuniform/single-node-axis', dict(kind='nonuniform-single', shape=[3, 1])))
+    out.append(('fromgrid/dict-limits', dict(kind='fromgrid-dict', shape=[3, 4])))
     out.append(('specs/1d', dict(kind='specs', shape=[3])))
     out.append(('specs/2d', dict(kind='specs', shape=[2, 3])))
     out.append(('insert-append/1d+1d', dict(kind='insert', parts=[[2], [3]])))
@@ -250,6 +252,56 @@ def case(ctx, kind, shape=None, nob=None, parts=None):
         ctx.fact('canary-hook', not ctx.canary) if False else None
         if ctx.canary:
             ctx.eq('canary', bd[0], a + 1)
+        return
+    if kind == 'nonuniform-single':
+        # an axis with a single node: explicit limits must be honoured, defaults are the node itself
+        a0, b0, a1, b1 = ctx.real('a0'), ctx.real('b0'), ctx.real('a1'), ctx.real('b1')
+        s1 = ctx.real('s1')
+        for lo, hi in ((a0, b0), (a1, b1)):
+            ctx.assume(hi - lo >= 1)
+            ctx.assume(lo >= -64)
+            ctx.assume(hi <= 64)
+        ctx.assume(s1 - a1 >= 0.125)
+        ctx.assume(b1 - s1 >= 0.125)
+        cs = [a0 + 0.25, a0 + 0.5, a0 + 0.875]
+        from symnp.sarray import wrap
+
+        def vec(vals):
+            return wrap(np.array(vals, dtype=object), np.dtype('float64')) if ctx.sym else np.array(vals, dtype=float)
+        p2 = odl.nonuniform_partition(vec(cs), vec([s1]), min_pt=[a0, a1], max_pt=[b0, b1])
+        check_tiling(ctx, 'explicit-limits', p2, [a0, a1], [b0, b1], bump)
+        p1 = odl.nonuniform_partition(vec([s1]), min_pt=a1, max_pt=b1)
+        check_tiling(ctx, 'explicit-limits/1d', p1, [a1], [b1], 0)
+        pm = odl.nonuniform_partition(vec(cs), vec([s1]), min_pt=[a0, a1])
+        ctx.eq('only-min-given/max-of-single-node-axis', _lst(pm.max_pt)[1], s1)
+        ctx.eq('only-min-given/min', pm.min_pt, [a0, a1])
+        return
+    if kind == 'fromgrid-dict':
+        # limits given as dictionaries (selected axes, negative keys count from the end, any value incl. 0)
+        grid = odl.uniform_grid([0.0, 1.0], [1.0, 2.5], tuple(shape))
+        lo, hi = ctx.real('lo'), ctx.real('hi')
+        ctx.assume(lo <= 0)
+        ctx.assume(lo >= -8)
+        ctx.assume(hi >= 0)
+        ctx.assume(hi <= 8)
+        h0 = 0.5 / 2
+        h1 = 0.5 / 2
+        cases = {
+            'min{-2}': (dict(min_pt={-2: lo}), [lo, 1.0 - h1], [1.0 + h0, 2.5 + h1]),
+            'min{0}': (dict(min_pt={0: lo}), [lo, 1.0 - h1], [1.0 + h0, 2.5 + h1]),
+            'max{-1}': (dict(max_pt={-1: hi + 2.5}), [0.0 - h0, 1.0 - h1], [1.0 + h0, hi + 2.5]),
+            'min{-2},max{1}': (dict(min_pt={-2: lo}, max_pt={1: hi + 2.5}), [lo, 1.0 - h1], [1.0 + h0, hi + 2.5]),
+        }
+        for nm, (kw, emin, emax) in sorted(cases.items()):
+            q = odl.uniform_partition_fromgrid(grid, **kw)
+            ctx.eq('%s/min_pt' % nm, q.min_pt, [v + bump for v in emin] if bump else emin)
+            ctx.eq('%s/max_pt' % nm, q.max_pt, emax)
+        # the grid nodes at -1..1: a limit dictionary whose value is exactly the node 0.0 of a shifted grid
+        g2 = odl.uniform_grid(-1.0, 0.0, 3)
+        q = odl.uniform_partition_fromgrid(g2, max_pt={-1: hi})
+        ctx.eq('max{-1}=value/1d', q.max_pt, [hi])
+        q = odl.uniform_partition_fromgrid(odl.uniform_grid(0.0, 1.0, 3), min_pt={-1: lo})
+        ctx.eq('min{-1}=value/1d', q.min_pt, [lo])
         return
     if kind == 'specs':
         nd = len(shape)
